@@ -138,6 +138,26 @@ def check_data_entry(ix, rep, f, kind, rule='R-TRUTHY'):
                  'a predicate that is met with equality) is treated as "no sample" -- the variable keeps the value of the previous update' % ast.unparse(bad), bad.lineno)
     else:
         rep.ok(rule, f.module.rel, f.qual, slot, 'no value of the data set is tested by truthiness', f.node.lineno)
+    # whether an entry is stored depends on its name only: a test on the value (its type, its range, a comparison with what is stored) makes the
+    # monitor drop samples silently -- Fraction, Decimal, numpy scalars are numbers too -- and go on with the value of the previous update
+    sel = None
+    for n in ast.walk(f.node):
+        t = n.test if isinstance(n, (ast.If, ast.While, ast.IfExp)) else None
+        if t is None:
+            continue
+        name_parts = {id(x.value) for x in ast.walk(t) if isinstance(x, ast.Subscript) and isinstance(x.slice, ast.Constant) and x.slice.value == 0}
+        for x in ast.walk(t):
+            if isinstance(x, ast.Name) and x.id in tainted and x.id != dparam and x.id not in names_only and id(x) not in name_parts:
+                sel = sel or (x, t)
+            elif isinstance(x, ast.Subscript) and isinstance(x.value, ast.Name) and x.value.id in tainted and x.value.id not in names_only \
+                    and isinstance(x.slice, ast.Constant) and x.slice.value not in (0,):
+                sel = sel or (x, t)
+    slot2 = '%s:data-entry:value-test' % kind
+    if sel is not None and bad is None:
+        rep.fail(rule, f.module.rel, f.qual, slot2, 'whether an entry of the data set is stored depends on its value (`%s` in the test `%s`): samples the test does not accept are dropped '
+                 'silently and the variable keeps the value of the previous update' % (ast.unparse(sel[0]), ast.unparse(sel[1])[:80]), sel[1].lineno)
+    elif sel is None:
+        rep.ok(rule, f.module.rel, f.qual, slot2, 'entries are selected by name only', f.node.lineno)
     return 1
 
 
@@ -270,19 +290,27 @@ def check_entry_verbatim(ix, rep, f, kind, rule='R-ENTRY'):
                     tainted.add(name)
                     changed = True
 
-    def verbatim(v):
+    local_binds = {}
+    for n_ in ast.walk(f.node):
+        if isinstance(n_, ast.Assign) and len(n_.targets) == 1 and isinstance(n_.targets[0], ast.Name):
+            local_binds.setdefault(n_.targets[0].id, []).append(n_.value)
+
+    def verbatim(v, depth=0):
         if isinstance(v, ast.Name):
+            # a local stands for what it is bound to (loop targets and parameters have no binding here: they are elements of the data set)
+            if v.id in local_binds and depth < 4:
+                return all(verbatim(b, depth + 1) for b in local_binds[v.id])
             return True
         if isinstance(v, ast.Subscript):
-            return verbatim(v.value)          # data[k], data[1], v[:]
+            return verbatim(v.value, depth)          # data[k], data[1], v[:]
         if isinstance(v, ast.Attribute):
-            return verbatim(v.value)
+            return verbatim(v.value, depth)
         if isinstance(v, ast.Call) and not v.keywords and len(v.args) == 1:
             fn = ast.unparse(v.func)
             if fn in ('list', 'copy', 'copy.copy', 'copy.deepcopy', 'deepcopy'):
-                return verbatim(v.args[0])
+                return verbatim(v.args[0], depth)
         if isinstance(v, ast.Call) and not v.keywords and not v.args and isinstance(v.func, ast.Attribute) and v.func.attr in ('copy', 'tolist'):
-            return verbatim(v.func.value)          # v.copy(), array.tolist(): the same numbers in a new container
+            return verbatim(v.func.value, depth)          # v.copy(), array.tolist(): the same numbers in a new container
         return False
     n = 0
     for st in ast.walk(f.node):
@@ -302,4 +330,57 @@ def check_entry_verbatim(ix, rep, f, kind, rule='R-ENTRY'):
             rep.fail(rule, f.module.rel, f.qual, slot, 'what is stored for the variable is `%s`, a conversion of the supplied samples: the monitor computes with other numbers than '
                      'the caller gave it (an int sample above 2**53 becomes a different float; the robustness between two such signals loses its sign)'
                      % ast.unparse(st.value)[:70], st.lineno)
+    return n
+
+
+CONVERSIONS = ('float', 'int', 'round', 'complex', 'str', 'repr', 'Decimal', 'Fraction', 'abs', 'bool')
+
+
+def check_wrapper_verbatim(ix, rep, rule='R-ENTRY'):
+    """the specification wrappers (`evaluate`, `update` of rtamt/spec/abstract_specification.py) hand the caller's data to the interpreter as it
+    is: they may pack it into containers, they do not convert numbers -- `float(t)` of an integer time-stamp above 2**53 (epoch nanoseconds) is
+    another instant, and two samples closer than the double spacing there collapse into one."""
+    m = ix.module('rtamt.spec.abstract_specification')
+    n = 0
+    for cname, c in sorted(m.classes.items()):
+        for mname in ('evaluate', 'update'):
+            f = c.methods.get(mname)
+            if f is None:
+                continue
+            a = f.node.args
+            tainted = {x.arg for x in a.args[1:]} | ({a.vararg.arg} if a.vararg else set()) | ({a.kwarg.arg} if a.kwarg else set())
+            if not tainted:
+                continue
+            changed = True
+            while changed:
+                changed = False
+                for x in ast.walk(f.node):
+                    pairs = []
+                    if isinstance(x, ast.Assign):
+                        for t in x.targets:
+                            for y in ast.walk(t):
+                                if isinstance(y, ast.Name) and isinstance(y.ctx, ast.Store):
+                                    pairs.append((y.id, x.value))
+                    elif isinstance(x, (ast.For, ast.comprehension)):
+                        for y in ast.walk(x.target):
+                            if isinstance(y, ast.Name):
+                                pairs.append((y.id, x.iter))
+                    for name, val in pairs:
+                        if name not in tainted and any(isinstance(z, ast.Name) and z.id in tainted for z in ast.walk(val)):
+                            tainted.add(name)
+                            changed = True
+            n += 1
+            rep.analysed(f)
+            bad = None
+            for x in ast.walk(f.node):
+                if isinstance(x, ast.Call) and x.args:
+                    fn = x.func.id if isinstance(x.func, ast.Name) else (x.func.attr if isinstance(x.func, ast.Attribute) else None)
+                    if fn in CONVERSIONS and any(isinstance(z, ast.Name) and z.id in tainted for z in ast.walk(x.args[0])):
+                        bad = bad or x
+            slot = '%s.%s:verbatim' % (cname, mname)
+            if bad is not None:
+                rep.fail(rule, f.module.rel, f.qual, slot, '%s() converts what the caller supplied (`%s`) before the interpreter sees it: an integer time-stamp or sample above 2**53 becomes '
+                         'another number, two close samples collapse into one' % (mname, ast.unparse(bad)[:60]), bad.lineno)
+            else:
+                rep.ok(rule, f.module.rel, f.qual, slot, 'the data set is handed on as supplied (container operations only)', f.node.lineno)
     return n
